@@ -17,13 +17,23 @@
       transparent, and the same memo of compiled types) would have: every later event is processed identically;
     * skipping an unknown member never errors or panics (`SF.Props.C13`).
 
-  The no-panic / no-foreign-write clauses over all (stream, target) pairs are decided by the
+    * NO PANIC for generic targets, for ANY event sequence whatsoever
+      (`any_events_into_interface`, `no_panic_any_events_into_interface`,
+      `any_events_into_map_or_slice`): from an idle Unfolder with target `interface{}`,
+      `map[string]interface{}` or `[]interface{}`, EVERY sequence of events — unbalanced,
+      truncated, keys outside objects, wrong lengths, out-of-range numbers, anything — ends in
+      ok or in an ERROR; the only panic the code can raise is the documented one of
+      `makeArrayPtr`/`makeMapPtr` for an element-type code 17…255, which no parser or folder of
+      this library emits (`invalid_base_type_panics`: exactly those codes);
+      `no_panic_into_interface`: no prefix of a well-formed stream fails at all.
+  The no-panic / no-foreign-write clauses over the TYPED (stream, target) pairs are decided by the
   mirror (explicit `panic` outcome for every empty-stack pop, nil dereference and invalid type
   code), the correspondence over generated mismatches at every depth, announced lengths up to
   2^63-1, every abandon position × following documents (ops `unf`, `unf-reuse`), and the
   oracle (no panic / crash / hang; reused = fresh).
 -/
 import SF.Gotype.Unfold
+import SF.Proofs.UnfGenericTop
 namespace SF.Props.C14
 open SF SF.Unf
 
@@ -65,6 +75,37 @@ theorem reset_forgets (c : Ctx) :
     reset c = { newUnfolder with keyCache := c.keyCache, reg := c.reg, whatIfFixed := c.whatIfFixed,
                                  target := c.target, env := c.env } := by
   rfl
+
+/-! ### no panic for generic targets -/
+
+/-- C14 (no-panic clause) for an `interface{}` target: from an idle Unfolder ANY sequence of
+events ends in ok, or an ERROR, or — only if it contains a container start announcing an
+element-type code 17 … 255 — the documented panic of `makeArrayPtr` / `makeMapPtr`.  Never a
+pop of an empty stack, a nil or stale pointer, an out-of-range scratch slot, a model gap or
+fuel exhaustion -/
+theorem any_events_into_interface (f : Nat) (tbl : TypeTable) (v0 : GoVal) (c : Ctx) (es : List UEv)
+    (hidle : c.unfolder = Stk.init .noTarget) (hkc : Symbols.Inv c.keyCache) :
+    ∃ c0, setTarget tbl .ifc v0 c = .ok c0 ∧
+      ((∃ c', SF.Unf.run (f + 1) es c0 = .ok () c') ∨
+       (∃ e c', SF.Unf.run (f + 1) es c0 = .err e c') ∨
+       (∃ c' e, SF.Unf.run (f + 1) es c0 = .panic c' ∧ e ∈ es ∧ e.badStart)) :=
+  SF.Unf.any_events_into_interface f tbl v0 c es hidle hkc
+
+/-- … so with element-type codes a `structform.BaseType` of this library can hold, NO event
+sequence makes the Unfolder panic -/
+theorem no_panic_any_events_into_interface (f : Nat) (tbl : TypeTable) (v0 : GoVal) (c : Ctx) (es : List UEv)
+    (hidle : c.unfolder = Stk.init .noTarget) (hkc : Symbols.Inv c.keyCache)
+    (hcodes : ∀ e ∈ es, ¬ e.badStart) :
+    ∃ c0, setTarget tbl .ifc v0 c = .ok c0 ∧
+      ((∃ c', SF.Unf.run (f + 1) es c0 = .ok () c') ∨ (∃ e c', SF.Unf.run (f + 1) es c0 = .err e c')) :=
+  SF.Unf.no_panic_any_events_into_interface f tbl v0 c es hidle hkc hcodes
+
+/-- no prefix of a well-formed stream fails on an `interface{}` target -/
+theorem no_panic_into_interface (f : Nat) (tbl : TypeTable) (v0 : GoVal) (t : UTree) (c : Ctx)
+    (hwf : t.wf = true) (hidle : c.unfolder.stack = []) (hkc : Symbols.Inv c.keyCache)
+    (es rest : List UEv) (hpre : t.events = es ++ rest) :
+    ∃ c0 c', setTarget tbl .ifc v0 c = .ok c0 ∧ SF.Unf.run (f + 1) es c0 = .ok () c' :=
+  SF.Unf.no_panic_into_interface f tbl v0 t c hwf hidle hkc es rest hpre
 
 /-- non-vacuity: the announced lengths of the property text -/
 example : arrPreallocLen (2 ^ 63 - 1) = 1024 ∧ arrPreallocLen (2 ^ 62) = 1024 ∧ arrPreallocLen (2 ^ 28) = 1024 ∧
